@@ -218,6 +218,21 @@ FAMILIES = [
 ]
 
 
+def big_cfg(rng, nterm=300):
+    """A conflict-free grammar with `nterm` token ids (token type numbers beyond 255, several hundred states):
+    S : L ; L : L I | I ; I : k_i A_(i mod 10) (one alternative per terminal) ; A_j : k_x | k_y k_z  (x != y)."""
+    terms = ["k%d" % i for i in range(nterm)]
+    nts = ["S", "L", "I"] + ["A%d" % j for j in range(10)]
+    prods = [("S", ["L"], "normal", None), ("L", ["L", "I"], "normal", "N"), ("L", ["I"], "normal", None)]
+    for i in range(nterm):
+        prods.append(("I", [terms[i], "A%d" % (i % 10)], "normal", "T" if i % 3 == 0 else "N"))
+    for j in range(10):
+        x, y = rng.sample(range(nterm), 2)
+        prods.append(("A%d" % j, [terms[x]], "normal", "N"))
+        prods.append(("A%d" % j, [terms[y], terms[rng.randrange(nterm)]], "normal", "N"))
+    return CFG(nts, terms, prods)
+
+
 def family(i):
     nts, terms, prods = FAMILIES[i % len(FAMILIES)]
     return CFG(list(nts), list(terms), [tuple(p) for p in prods])
